@@ -1,5 +1,5 @@
 """C11 — writes are applied exactly once, one at a time, in submission order.  (DESIGN §4 C11)"""
-from core import (enum_paths, path_atoms, path_calls, path_return, ret_variant, same_value, strip_site, fmt,
+from core import (variant_edges, enum_paths, path_atoms, path_calls, path_return, ret_variant, same_value, strip_site, fmt,
                   root_calls, subexprs, is_call_to, classify_external, field_path, mentions)
 from ackmodel import AckModel
 
@@ -139,7 +139,7 @@ def find_worker(ctx, A):
     return F.fn(recv_fns[0])
 
 
-def worker_loop(ctx, A, W, RULE):
+def worker_loop(ctx, A, W, RULE, drain_liveness=False):
     """per dequeued command: one handler, then one completion of that command's own acknowledgement"""
     F = ctx.facts
     spawn = F.spawn_closures()
@@ -224,6 +224,28 @@ def worker_loop(ctx, A, W, RULE):
     ctx.check(not bad and paths, RULE, "%s|one-handler-one-ack-per-command" % W.name,
               "per dequeued command: exactly one handler, run on the worker, then exactly one completion of that command's acknowledgement with the handler's status; Shutdown acknowledges itself then drains with ShuttingDown (%d loop paths)" % len(paths),
               W.where(R), "; ".join("%s via %s" % x for x in bad[:3]))
+    for db in drain_sites:
+        t = W.term(db)
+        ve = variant_edges(W, t["target"]) if t.get("target") is not None else None
+        some = [tgt for n, tgt in ve[1] if n == "Some"] if ve else []
+        dres = W.origin_call(db, t)
+        done_blocks = []
+        for b, tt in W.calls():
+            if tt.get("rpath") in A.done_fns:
+                a0 = W.op_origin(tt["args"][0])
+                if any(strip_site(c) == strip_site(dres) for c in root_calls(a0)):
+                    done_blocks.append(b)
+        ctx.check(bool(some) and bool(done_blocks) and all(W.must_pass([s], done_blocks, targets=set(W.return_blocks()) | {db}) for s in some),
+                  RULE, "%s|every-drained-command-answered" % W.name,
+                  "every command received while draining is completed (on its own acknowledgement) before the next receive", W.where(db))
+    if drain_liveness:
+        for db in drain_sites:
+            t = W.term(db)
+            ve = variant_edges(W, t["target"]) if t.get("target") is not None else None
+            some = [tgt for n, tgt in ve[1] if n == "Some"] if ve else []
+            ctx.check(bool(some) and all(W.must_pass([s], [db]) for s in some), RULE, "%s|drain-exits-only-on-disconnect" % W.name,
+                      "the drain loop leaves only when the channel reports disconnection: every later command is received and answered", W.where(db))
+        ctx.check(len(drain_sites) >= 1, RULE, "%s|drain-exists" % W.name, "the Shutdown arm drains the queue", W.where())
     allv = set()
     for name, adt in F.adts.items():
         if name.endswith("command::CommandType"):
